@@ -16,6 +16,7 @@
 EXTENDS Naturals, Sequences, FiniteSets, TLC
 
 CONSTANTS NTasks, N, MaxOps, Labels, Levels, Bug,
+          Prep,        \* BOOLEAN: scope objects made in one place and entered in another are explored
           OwnTraces    \* what a scope may be given as its trace id: subset of {"no", "own", "empty"}
 (* Labels \subseteq {"plain", "empty", "fmt", "pct"}; Levels \subseteq {"debug","info","warning","error"} *)
 
@@ -24,7 +25,7 @@ S == 1..N
 Texts == {"noargs", "args", "pct_noargs", "mapping"}   \* mapping: "%(name)s" with a single dict argument
 
 VARIABLES par,     \* [S -> 0..N]
-          phase,   \* [S -> "new" | "entered" | "finished"]
+          phase,   \* [S -> "new" | "made" | "entered" | "finished"]
           label,   \* [S -> Labels]
           lg,      \* [S -> [kind : "own" | "named", s : origin scope]]
           tr,      \* [S -> [given : BOOLEAN, s : origin scope]]
@@ -52,13 +53,11 @@ RootOf(s) == IF par[s] = 0 THEN s ELSE RootOf(par[s])
 
 NextScope == CHOOSE s \in S : phase[s] = "new" /\ \A r \in S : phase[r] = "new" => s <= r
 
-(* ctx.scope(name, logger=?, trace_id=?) created and entered by t; the scope logs "Started..." *)
-Open(t, lab, ownlog, owntrace) ==
-  /\ Op /\ alive[t] = "run" /\ \E s \in S : phase[s] = "new"
-  /\ LET s == NextScope
-         p == cur[t] IN
+(* ctx.scope(name, logger=?, trace_id=?) is evaluated by t: the scope is registered under t's current scope, from which it
+   takes its logger and trace id unless given its own *)
+Register(t, s, lab, ownlog, owntrace) ==
+  LET p == cur[t] IN
      /\ par' = [par EXCEPT ![s] = p]
-     /\ phase' = [phase EXCEPT ![s] = "entered"]
      /\ label' = [label EXCEPT ![s] = lab]
      /\ lg' = [lg EXCEPT ![s] = IF ownlog THEN [kind |-> "own", s |-> s]
                                  ELSE IF p # 0 /\ Bug # "outermost_logger" THEN lg[p]
@@ -70,11 +69,37 @@ Open(t, lab, ownlog, owntrace) ==
             own == [given |-> TRUE, s |-> s] IN
         \E v \in (CASE owntrace = "own" -> {own} [] owntrace = "empty" -> {none, own} [] OTHER -> {none}) :
            tr' = [tr EXCEPT ![s] = v]
+
+(* ... created and entered at once by t; the scope logs "Started..." *)
+Open(t, lab, ownlog, owntrace) ==
+  /\ Op /\ alive[t] = "run" /\ \E s \in S : phase[s] = "new"
+  /\ LET s == NextScope IN
+     /\ Register(t, s, lab, ownlog, owntrace)
+     /\ phase' = [phase EXCEPT ![s] = "entered"]
      /\ saved' = [saved EXCEPT ![s] = cur[t]]
      /\ cur' = [cur EXCEPT ![t] = s]
      /\ stack' = [stack EXCEPT ![t] = Append(@, s)]
      /\ obs' = LineOf(s, "info", "noargs", FALSE)     \* the probe logged through the new scope
   /\ UNCHANGED alive
+
+(* ... or made now and entered later, by whichever task: logger and trace id are those of the place where it was made *)
+Make(t, lab, ownlog, owntrace) ==
+  /\ Prep /\ Op /\ alive[t] = "run" /\ (\E s \in S : phase[s] = "new") /\ (\A s \in S : phase[s] # "made")
+  /\ LET s == NextScope IN
+     /\ Register(t, s, lab, ownlog, owntrace)
+     /\ phase' = [phase EXCEPT ![s] = "made"]
+  /\ UNCHANGED <<saved, cur, stack, alive>>
+  /\ obs' = NoLine
+
+EnterMade(t) ==
+  /\ Op /\ alive[t] = "run" /\ \E s \in S : phase[s] = "made"
+  /\ LET s == CHOOSE s \in S : phase[s] = "made" IN
+     /\ phase' = [phase EXCEPT ![s] = "entered"]
+     /\ saved' = [saved EXCEPT ![s] = cur[t]]
+     /\ cur' = [cur EXCEPT ![t] = s]
+     /\ stack' = [stack EXCEPT ![t] = Append(@, s)]
+     /\ UNCHANGED <<par, label, lg, tr, alive>>
+     /\ obs' = LineOf(s, "info", "noargs", FALSE)
 
 (* leaving the innermost scope - its body returns, or the task is cancelled inside it and the cancellation is caught
    right outside the block; either way the task is back in the enclosing scope (nothing is logged by the environment) *)
@@ -106,13 +131,15 @@ Start(t, u) ==
 
 Next == \E t \in Tasks :
           \/ \E lab \in Labels, ol \in BOOLEAN, ot \in OwnTraces : Open(t, lab, ol, ot)
+          \/ \E lab \in Labels, ol \in BOOLEAN, ot \in OwnTraces : Make(t, lab, ol, ot)
+          \/ EnterMade(t)
           \/ \E how \in {"return", "cancel"} : Close(t, how)
           \/ \E lvl \in Levels, text \in Texts, exc \in BOOLEAN : Log(t, lvl, text, exc)
           \/ \E u \in Tasks : Start(t, u)
 Spec == Init /\ [][Next]_vars
 
 -----------------------------------------------------------------------------
-TypeOK == \A s \in S : phase[s] \in {"new", "entered", "finished"}
+TypeOK == \A s \in S : phase[s] \in {"new", "made", "entered", "finished"}
 
 (* C19: the scope's own logger, else the nearest enclosing scope's, else one named after the outermost scope *)
 RECURSIVE NearestOwn(_)
